@@ -931,10 +931,45 @@ func (c *Ctx) evalCall(env *specEnv, n *SNode) (specVal, error) {
 		}
 		c.Reg.DeclFun("cancel_ctx", []Sort{SInt}, SInt)
 		return specVal{T(SBool, "(= (cancel_ctx %s) %s)", f.t.S, c.ctxID(st, x.t).S), tBool}, nil
+	case "atomicval":
+		// atomicval(&x.flag): the last value this goroutine observed / stored in an atomic.Bool
+		x, err := argv(0)
+		if err != nil {
+			return specVal{}, err
+		}
+		return specVal{Select(c.Arr(st, famAtomicBool, ArraySort(SInt, SBool)), x.t), tBool}, nil
 	case "nolocks":
 		// no annotated lock is held by the executing goroutine at this point (tracked per path)
 		h := c.Arr(st, famHeld, ArraySort(SInt, SBool))
 		return specVal{Eq(h, ConstArray(ArraySort(SInt, SBool), False)), tBool}, nil
+	case "called":
+		// called(Callee, siteOrdinal): that call was executed on the current path
+		if len(n.Args) != 2 || n.Args[1].Op != "lit-int" {
+			return specVal{}, fmt.Errorf("called(callee, site) expects a literal ordinal")
+		}
+		name, ok := typeTextOf(n.Args[0])
+		if !ok {
+			return specVal{}, fmt.Errorf("called: bad callee name")
+		}
+		_, ok = st.callArgs[name+"#"+n.Args[1].Text]
+		return specVal{BoolLit(ok), tBool}, nil
+	case "callarg":
+		// callarg(Callee, siteOrdinal, k): the k-th argument (receiver excluded for interface
+		// calls) of that call on the current path
+		if len(n.Args) != 3 || n.Args[1].Op != "lit-int" || n.Args[2].Op != "lit-int" {
+			return specVal{}, fmt.Errorf("callarg(callee, site, index) expects literal ordinals")
+		}
+		name, ok := typeTextOf(n.Args[0])
+		if !ok {
+			return specVal{}, fmt.Errorf("callarg: bad callee name")
+		}
+		idx, _ := strconv.Atoi(n.Args[2].Text)
+		atyp := c.typeOfCallArg(env, name, n.Args[1].Text, idx)
+		vals, ok := st.callArgs[name+"#"+n.Args[1].Text]
+		if !ok || idx >= len(vals) {
+			return specVal{c.FreshConst(st, "nocall", c.Reg.SortOf(atyp)), atyp}, nil
+		}
+		return specVal{c.toTerm(st, vals[idx]), atyp}, nil
 	case "callres":
 		// callres(Callee, siteOrdinal, k): the k-th result of that call on the current path
 		if len(n.Args) != 3 || n.Args[1].Op != "lit-int" || n.Args[2].Op != "lit-int" {
@@ -1108,7 +1143,7 @@ func (c *Ctx) evalCall(env *specEnv, n *SNode) (specVal, error) {
 		return specVal{T(SBool, "(str.in_re %s %s)", a.t.S, re), tBool}, nil
 	}
 	// pure / predicate / ghost
-	if pd, ok := c.Pures[n.Text]; ok {
+	if pd := c.lookupPure(env.pkg, n.Text); pd != nil {
 		return c.evalPure(env, pd, n)
 	}
 	if gd, ok := c.Ghosts[n.Text]; ok {
@@ -1156,13 +1191,37 @@ func (c *Ctx) findIter(env *specEnv) *RangeIter {
 	return nil
 }
 
+// lookupPure resolves a pure/pred name: the definition of the package the expression is
+// evaluated in wins, then a definition of a package it imports, then a unique definition.
+func (c *Ctx) lookupPure(pkg *types.Package, name string) *PureDef {
+	defs := c.Pures[name]
+	if len(defs) == 0 {
+		return nil
+	}
+	for _, d := range defs {
+		if d.Pkg == pkg {
+			return d
+		}
+	}
+	if pkg != nil {
+		for _, d := range defs {
+			for _, imp := range pkg.Imports() {
+				if d.Pkg == imp {
+					return d
+				}
+			}
+		}
+	}
+	return defs[0]
+}
+
 func (c *Ctx) evalPure(env *specEnv, pd *PureDef, n *SNode) (specVal, error) {
 	if len(n.Args) != len(pd.Params) {
 		return specVal{}, fmt.Errorf("%s expects %d arguments", pd.Name, len(pd.Params))
 	}
 	pkg := env.pkg
-	if p := c.LemmaPkg["pure:"+pd.Name]; p != nil {
-		pkg = p.Types
+	if pd.Pkg != nil {
+		pkg = pd.Pkg
 	}
 	var args []specVal
 	for i, a := range n.Args {
@@ -1398,4 +1457,18 @@ func (c *Ctx) lookupSent(st *State, ch Term) (Term, bool) {
 		}
 	}
 	return Term{}, false
+}
+
+func (c *Ctx) typeOfCallArg(env *specEnv, callee string, ord string, k int) types.Type {
+	if env.fn == nil {
+		return tAny
+	}
+	for ins, si := range c.sitesOf(env.fn) {
+		if si.class == "call "+callee && fmt.Sprint(si.ord) == ord {
+			if call, ok := ins.(*ssa.Call); ok && k < len(call.Call.Args) {
+				return call.Call.Args[k].Type()
+			}
+		}
+	}
+	return tAny
 }
